@@ -103,6 +103,7 @@ fn dispatch_replay(prop: &str, v: &serde_json::Value) -> bool {
         "X" => faults::replay(v),
         "E-bytes" => ebytes::replay(v),
         "H" => hist::replay(v),
+        "H-sweep" => hist::replay_sweep(v),
         "K" => crash::replay(v),
         "E-proj" => eproj::replay(v),
         e => {
